@@ -1,10 +1,14 @@
 #!/bin/bash
-# usage: tools/with_patch.sh <patch> [-R] -- <cmd...>   applies the patch to /repo, runs cmd, restores /repo
+# usage: tools/with_patch.sh <patch> [-R] -- <cmd...>
+# applies the patch to a scratch worktree of /repo (never to /repo itself) and runs cmd with PYVC_REPO pointing at it
 P="$1"; shift; REV=""
 if [ "$1" = "-R" ]; then REV="-R"; shift; fi
 shift
-git -C /repo diff --quiet || { echo "/repo dirty"; exit 9; }
-git -C /repo apply $REV "$P" || { echo "patch does not apply"; exit 9; }
-"$@"; rc=$?
-git -C /repo checkout -- . 
+WT=${PYVC_SCRATCH:-/tmp/wt/mt}
+if [ ! -d "$WT" ]; then git -C /repo worktree add -q --detach "$WT" HEAD || exit 9; fi
+git -C "$WT" checkout -q --detach "$(git -C /repo rev-parse HEAD)" 2>/dev/null
+git -C "$WT" checkout -q -- . 
+git -C "$WT" apply $REV "$P" || { echo "patch does not apply"; exit 9; }
+PYVC_REPO="$WT" "$@"; rc=$?
+git -C "$WT" checkout -q -- .
 exit $rc
